@@ -3,7 +3,8 @@ models of scalar.rs for every byte string, Props/C11_spec.v) run against the who
 
   spec      c11.u64 / c11.i64 / c11.f64 / c11.bool  (f64 with the payload of PrecisionLoss)
             inputs: every power of ten 10^0..10^25 +-3 with sign / leading zero / '.' variants, 15/16/17/18+
-            significant digits with every position of the '.', text forms that must be refused (exponents,
+            significant digits with every position of the '.', 54..64-bit integers at and next to the rounding ties
+            of `as f64` (PrecisionLoss payload), text forms that must be refused (exponents,
             inf/nan, hex, separators, blanks, non-ASCII digits), every one of the 256 byte values as the one
             foreign byte in 9 positions, to_bool with every single-byte substitution/insertion on "yes"/"no"
   at        c11.at: the four conversions on slices of every length 0..24 at every alignment 0..7 (mod 8), digits
@@ -52,6 +53,28 @@ def sigdigit_strings(rng, nrand):
         for lead in (b"", b"0", b"1", b"-0", b"-", b"+", b"12"):
             for fr in (b"0" * k, b"0" * (k - 1) + b"1", b"9" * k, b"1" + b"0" * (k - 1), b"0" * (k - 3) + b"123"):
                 out.add(lead + b"." + fr)
+    return out
+
+
+def tie_integers(rng, per):
+    """integers of 54..64 bits at and next to the rounding ties of u64/i64 -> f64 (the PrecisionLoss payload, and
+    `i as f64` in the fractional branch): mantissa m (53 bits), v = m*2^s + 2^(s-1) + {-1,0,1}"""
+    out = set()
+    for L in range(54, 65):
+        sh = L - 53
+        for _ in range(per):
+            m = rng.randrange(2 ** 52, 2 ** 53)
+            for mm in (m, m ^ 1):
+                for dlt in (-1, 0, 1):
+                    v = (mm << sh) + (1 << (sh - 1)) + dlt
+                    if v >= 2 ** 64:
+                        continue
+                    s = str(v).encode()
+                    out.add(s)
+                    out.add(b"-" + s)
+                    out.add(s + b".0")
+                    p = rng.randrange(0, len(s))
+                    out.add(s[:p] + b"." + s[p:])
     return out
 
 
@@ -207,7 +230,7 @@ def run_prefix(ctx, base, strs):
 def run_more(ctx, base):
     rng = ctx.rng
     # ---- 1. spec functions vs the four conversions
-    strs = pow10_strings() | sigdigit_strings(rng, ctx.scale(6, 60)) | refused_forms() | foreign_strings() | {b"+", b"-+1"}
+    strs = pow10_strings() | sigdigit_strings(rng, ctx.scale(6, 60)) | refused_forms() | foreign_strings() | {b"+", b"-+1"} | tie_integers(rng, ctx.scale(6, 60))
     bad = [s for s in refused_forms() if base.expect_f64(s) is not None]
     if bad:
         ctx.broken.append({"what": "check-internal", "detail": "refused_forms() contains strings of the accepted language: %r" % bad})
